@@ -4,7 +4,10 @@ import numpy as np
 
 
 def tolstep(delta):
-    return delta * (1.0 + 1e-9) + 1e-300
+    # "does not exceed the radius beyond rounding": the rotation of the boundary phase normalises its direction with
+    # sqrt(|s|^2 |g|^2 - (g.s)^2), whose cancellation amplifies rounding up to the order of sqrt(eps) (seed 3, case 2722 of the
+    # constrained solver: relative excess 1.2e-9 with nearly parallel s and g); a logic error gives an excess of order one
+    return delta * (1.0 + 1e-7) + 1e-300
 
 
 def in_bounds(step, xl, xu):
